@@ -693,6 +693,9 @@ fn sched_hook(_label: &'static str) {
     POINTS.with(|c| c.set(c.get() + 1));
     if IN_SHUTTLE.with(|c| c.get()) {
         shuttle::thread::yield_now();
+    } else {
+        // a no-op unless this OS thread belongs to an exploration of nimc::baton
+        nimc::baton::point();
     }
 }
 
@@ -785,6 +788,52 @@ fn run_program(p: &Program, out: &mut JobOut) {
             }
             Err(_) => {
                 let m = mismatches.lock().unwrap().first().cloned().unwrap_or_else(|| "the program panicked under the scheduler".to_string());
+                // shuttle's threads are coroutines on one OS thread and share its thread-local
+                // state; the same program is explored again with one OS thread per thread
+                let prog = p.clone();
+                let make = move || -> Vec<Box<dyn FnOnce() -> Vec<(usize, Outcome)> + Send>> {
+                    let w: Arc<Box<dyn Subject>> = Arc::new(build(prog.kind));
+                    prog.threads
+                        .iter()
+                        .cloned()
+                        .map(|ops| {
+                            let w = w.clone();
+                            Box::new(move || ops.iter().map(|&o| (o, w.op(o))).collect::<Vec<_>>()) as Box<dyn FnOnce() -> Vec<(usize, Outcome)> + Send>
+                        })
+                        .collect()
+                };
+                let canon3 = canon.clone();
+                let check = move |rs: Vec<std::thread::Result<Vec<(usize, Outcome)>>>| -> Result<(), String> {
+                    for (t, r) in rs.into_iter().enumerate() {
+                        match r {
+                            Err(_) => return Err(format!("thread {t} panicked")),
+                            Ok(v) => {
+                                for (o, got) in v {
+                                    if got != canon3[o] {
+                                        return Err(format!("thread {t}: op '{}' returned {} under this interleaving, sequentially {}", OP_NAMES[o], short(&got), short(&canon3[o])));
+                                    }
+                                }
+                            }
+                        }
+                    }
+                    Ok(())
+                };
+                // (every schedule with at most 2 preemptions, 3 in the thorough tier: a failure that needs
+                // more than that on OS threads is taken for an effect of the shared thread-locals)
+                let confirm_bound = p.bound.min(if std::env::args().any(|a| a == "thorough") { 3 } else { 2 });
+                let ex = nimc::baton::explore(confirm_bound, 300_000, &make, &check);
+                out.count("executions_on_os_threads_to_confirm_a_failure", ex.executions);
+                let m = match (&ex.failure, &ex.incomplete) {
+                    (Some((_, fm)), _) => format!("{m}; confirmed with one OS thread per thread: {fm}"),
+                    (None, None) => {
+                        // every schedule within the same bound passes when thread-local state is per thread
+                        out.count("programs_that_fail_only_when_simulated_threads_share_one_os_thread", 1);
+                        out.outcome("schedule:fails-only-with-shared-thread-locals(not a violation)");
+                        out.states += 1;
+                        return;
+                    }
+                    (None, Some(why)) => format!("{m}; the confirmation with one OS thread per thread was not completed ({why})"),
+                };
                 let sched = std::fs::read_dir(&dir).ok().and_then(|mut d| d.next()).and_then(|e| e.ok()).map(|e| e.path().display().to_string()).unwrap_or_default();
                 out.violate(
                     key.clone(),
@@ -989,12 +1038,91 @@ fn many_builds(out: &mut JobOut) {
     out.sample = Some(Json::str("A asked q; N-1 builds; B built and asked q; N in {1,2,3,255,256,257,511,512,65535,65536,65537,131072}"));
 }
 
+// ------------------------------------------------------------------------------------------
+// queries while the calling thread shuts down
+
+/// a value in thread-local storage that asks its interpolator once more when it is dropped,
+/// i.e. while the thread is being torn down
+struct Parting {
+    name: &'static str,
+    w: Arc<Box<dyn Subject>>,
+    ops: Vec<usize>,
+    report: Arc<Mutex<Vec<(&'static str, usize, Outcome)>>>,
+}
+
+impl Drop for Parting {
+    fn drop(&mut self) {
+        for &o in &self.ops {
+            let got = std::panic::catch_unwind(std::panic::AssertUnwindSafe(|| self.w.op(o))).unwrap_or(Outcome::Panic);
+            if let Ok(mut r) = self.report.lock() {
+                r.push((self.name, o, got));
+            }
+        }
+    }
+}
+
+thread_local! {
+    static PARTING_EARLY: std::cell::RefCell<Option<Parting>> = const { std::cell::RefCell::new(None) };
+    static PARTING_LATE: std::cell::RefCell<Option<Parting>> = const { std::cell::RefCell::new(None) };
+}
+
+/// For every kind of interpolator: a fresh OS thread installs one such value before its first
+/// query and one after its queries; both ask again from their destructors at thread exit (one
+/// before, one after the crate's own thread-local state - if it has any - is destroyed). The
+/// answers must be the sequential ones.
+fn teardown_queries(kind: usize, out: &mut JobOut) {
+    let ops = [0usize, 1, 2, 5, 8, 13];
+    let w: Arc<Box<dyn Subject>> = Arc::new(build(kind));
+    let canon: Vec<Outcome> = (0..NOPS).map(|o| if ops.contains(&o) { w.op(o) } else { Outcome::Panic }).collect();
+    let report: Arc<Mutex<Vec<(&'static str, usize, Outcome)>>> = Arc::new(Mutex::new(vec![]));
+    for history in [vec![], vec![0usize], vec![2, 5, 1, 0]] {
+        report.lock().unwrap().clear();
+        let (w2, r2, h2) = (w.clone(), report.clone(), history.clone());
+        let joined = std::thread::spawn(move || {
+            PARTING_EARLY.with(|p| *p.borrow_mut() = Some(Parting { name: "value installed before the thread's first query", w: w2.clone(), ops: ops.to_vec(), report: r2.clone() }));
+            for &o in &h2 {
+                let _ = w2.op(o);
+            }
+            PARTING_LATE.with(|p| *p.borrow_mut() = Some(Parting { name: "value installed after the thread's queries", w: w2.clone(), ops: ops.to_vec(), report: r2.clone() }));
+        })
+        .join();
+        out.states += 1;
+        let got = report.lock().unwrap().clone();
+        out.transitions += got.len() as u64;
+        let mut bad = None;
+        if joined.is_err() {
+            bad = Some("the thread panicked".to_string());
+        } else if got.len() != 2 * ops.len() {
+            bad = Some(format!("{} of {} answers arrived", got.len(), 2 * ops.len()));
+        }
+        for (name, o, g) in &got {
+            out.evals += 1;
+            out.nontrivial += 1;
+            out.outcome(if *g == canon[*o] { "teardown:same" } else { "teardown:differs" });
+            if *g != canon[*o] && bad.is_none() {
+                bad = Some(format!("op '{}' asked from the destructor of a thread-local ({name}) returned {}, sequentially {}", OP_NAMES[*o], short(g), short(&canon[*o])));
+            }
+        }
+        if let Some(b) = bad {
+            out.violate(
+                format!("teardown:{}:history{history:?}", KINDS[kind]).replace(' ', ""),
+                format!("{}: after the history {:?} on a fresh OS thread, {b}", KINDS[kind], history.iter().map(|&o| OP_NAMES[o]).collect::<Vec<_>>()),
+                Json::obj(vec![("interpolator", Json::str(KINDS[kind])), ("history", Json::Arr(history.iter().map(|&o| Json::str(OP_NAMES[o])).collect()))]),
+            );
+            return;
+        }
+    }
+    out.sample = Some(Json::obj(vec![("interpolator", Json::str(KINDS[kind]))]));
+}
+
 #[derive(Clone, Debug)]
 enum Job {
     SendSync,
     /// histories over *several* interpolators that share storage: an axis buffer is overwritten
     /// (same address, length and end points, other interior knots) between two builds
     StorageReuse { n: usize },
+    /// queries from destructors of thread-local values at thread exit
+    Teardown { kind: usize },
     Hist { kind: usize, first: usize, depth: usize },
     Sched(Program),
 }
@@ -1006,6 +1134,9 @@ fn body(ctx: &Ctx) -> (Summary, Meta) {
     let mut jobs = vec![Job::SendSync];
     for n in 3..=7 {
         jobs.push(Job::StorageReuse { n });
+    }
+    for kind in 0..KINDS.len() {
+        jobs.push(Job::Teardown { kind });
     }
     for kind in 0..KINDS.len() {
         for first in 0..NOPS {
@@ -1061,6 +1192,7 @@ fn body(ctx: &Ctx) -> (Summary, Meta) {
     let key = |j: &Job| match j {
         Job::SendSync => "send-sync".to_string(),
         Job::StorageReuse { n } => format!("storage-reuse:n{n}"),
+        Job::Teardown { kind } => format!("teardown:{}", KINDS[*kind]),
         Job::Hist { kind, first, .. } => format!("hist:{}:first={first}", KINDS[*kind]),
         Job::Sched(p) => p.key(),
     };
@@ -1079,6 +1211,7 @@ fn body(ctx: &Ctx) -> (Summary, Meta) {
                 out.sample = Some(Json::str("Send/Sync probe of 37 instantiations"));
             }
             Job::StorageReuse { n } => storage_reuse(*n, &mut out),
+            Job::Teardown { kind } => teardown_queries(*kind, &mut out),
             Job::Hist { kind, first, depth } => {
                 explore_histories(*kind, *first, *depth, &mut out);
                 if out.sample.is_none() {
@@ -1156,7 +1289,7 @@ fn body(ctx: &Ctx) -> (Summary, Meta) {
     }));
     let _ = (Ix1::default(), Ix3::default(), ArrayD::<f64>::zeros(IxDyn(&[1])));
     let meta = Meta {
-        rule: format!("(0) histories over many interpolators (run alone, so the count is exact): A is asked q, N - 1 further interpolators are built (dropped at once / kept alive), B over another axis is built and asked q, N in {{1,2,3,255,256,257,511,512,65535,65536,65537,131072}}, Linear / CubicSpline / Bilinear, 3 values of q; B must answer bit for bit what a fresh thread gets; (a) Send and Sync are probed for 37 instantiations over owned / view / shared / copy-on-write storage; (b) for each of 8 interpolators every history of at most {depth} operations over a 16-op alphabet (all entry points; knot, interior, other interval, out of range -> Err, NaN -> Err, late failure in a batch, wrongly shaped buffer -> panic, ops on a sibling interpolator with another axis) is executed on a fresh interpolator: every occurrence of an op must return the bits it returns on a fresh interpolator (the Debug fingerprint of the interpolator is recorded after every step; on the current tree it never changes, i.e. the explored state space is a single state with self loops); (c) for each interpolator every ordered pair of a 5-op alphabet as a 2-thread program, plus 3-thread programs (thorough: plus 2x2-op programs), explored by shuttle's exhaustive DFS over all interleavings at the hook scheduling points; every result must equal the sequential answer; the DFS is run twice and the schedule counts compared; (c') the same programs (Linear, CubicSpline, Bilinear, Periodic+extrapolate, and a 70-knot axis) on an *instrumented build* of the current sources in which every std::sync primitive is shuttle's, so that every atomic access and lock operation is a scheduling point as well (every interleaving when the program is small, else every schedule with at most 2 preemptions). Non-trivial: history mixing failing and successful calls / every schedule program."),
+        rule: format!("(0) histories over many interpolators (run alone, so the count is exact): A is asked q, N - 1 further interpolators are built (dropped at once / kept alive), B over another axis is built and asked q, N in {{1,2,3,255,256,257,511,512,65535,65536,65537,131072}}, Linear / CubicSpline / Bilinear, 3 values of q; B must answer bit for bit what a fresh thread gets; (0') for every interpolator kind a fresh OS thread asks 6 ops again from the destructors of two thread-local values (installed before its first query / after a history of 0, 1 or 4 queries) while it shuts down: sequential answers required; (a) Send and Sync are probed for 37 instantiations over owned / view / shared / copy-on-write storage; (b) for each of 8 interpolators every history of at most {depth} operations over a 16-op alphabet (all entry points; knot, interior, other interval, out of range -> Err, NaN -> Err, late failure in a batch, wrongly shaped buffer -> panic, ops on a sibling interpolator with another axis) is executed on a fresh interpolator: every occurrence of an op must return the bits it returns on a fresh interpolator (the Debug fingerprint of the interpolator is recorded after every step; on the current tree it never changes, i.e. the explored state space is a single state with self loops); (c) for each interpolator every ordered pair of a 5-op alphabet as a 2-thread program, plus 3-thread programs (thorough: plus 2x2-op programs), explored by shuttle's exhaustive DFS over all interleavings at the hook scheduling points; every result must equal the sequential answer; the DFS is run twice and the schedule counts compared; (c') the same programs (Linear, CubicSpline, Bilinear, Periodic+extrapolate, and a 70-knot axis) on an *instrumented build* of the current sources in which every std::sync primitive is shuttle's, so that every atomic access and lock operation is a scheduling point as well (every interleaving when the program is small, else every schedule with at most 2 preemptions). Non-trivial: history mixing failing and successful calls / every schedule program."),
         bounds: format!("{njobs} jobs: 1 Send/Sync table, {} history roots (depth {depth}: {} histories per interpolator), {} schedule programs; tier {}", KINDS.len() * NOPS, (1..=depth).map(|d| NOPS.pow(d as u32)).sum::<usize>(), njobs - 1 - KINDS.len() * NOPS, ctx.tier.name()),
         assumptions: vec![
             "scheduling points: the hook points (entry, before/after the lookup, inside the lookup, exit, per batch element) and, on the instrumented build, every std::sync atomic / lock operation; plain (non-atomic) shared memory cannot exist in safe code; thread_local! state is not modelled per simulated thread".into(),
